@@ -31,7 +31,7 @@ def handle (S : Schema) (line : String) : String :=
   | ["wf"] =>
     if !S.wf then "bad " ++ firstBad S
     else if !S.extendsCore then "bad core-schema-differs"
-    else s!"ok {S.ctors.size} {S.ifaces.size} core={coreSchema.ctors.size}/{coreSchema.ifaces.size}"
+    else s!"ok {S.ctors.size} {S.ifaces.size} core={coreSchema.ctors.size}/{coreSchema.ifaces.size} digest={S.digest}"
   | ["dec", t, h] =>
     -- `C12@34`: decode constructor 12 whose generic fields hold an object of constructor 34
     match t.splitOn "@" with
